@@ -457,14 +457,14 @@ def judge(ctx, r, cfgdesc, spec, aead, fam):
         ctx.failing_input(f'get_server_host_key() returned a key that is not the host key the server sent '
                           f'({cfgdesc}, edit {spec})', rp)
     if completed:
-        if r.c_sid is not None and r.s_sid is not None and r.c_sid != r.s_sid:
-            ctx.failing_input(f'handshake completed with different session ids on the two sides ({cfgdesc}, edit {spec})', rp)
         if W.bound_part(vc) != W.bound_part(vs):
             diff = [n for n, a, b in zip(('V_C', 'V_S', 'I_C', 'I_S', 'K_S', 'kex values'), W.bound_part(vc), W.bound_part(vs)) if a != b]
             ctx.failing_input(f'handshake completed although an on-path edit changed {"/".join(diff)} between what one side '
                               f'sent and the other received ({cfgdesc}, edit {spec})', rp)
         elif vc.get('sig') != vs.get('sig') and spec and is_sig_field(fam, spec) and spec[4] in ('flip0', 'fliplast'):
             ctx.failing_input(f'client accepted a host signature whose bytes were altered in flight ({cfgdesc}, edit {spec})', rp)
+        if r.c_sid and r.s_sid and r.c_sid != r.s_sid:
+            ctx.failing_input(f'handshake completed with different session ids on the two sides ({cfgdesc}, edit {spec})', rp)
         exp = expected_negotiation(m, aead)
         obs = observed_negotiation(r)
         if exp is not None:
